@@ -34,6 +34,15 @@ def cases(ctx, impl, rng):
         yield (f"synthetic#{seed}", seed)
 
 
+def shuffled_sets(j, label):
+    """the re-export map is a dict of *sets* of modules: the model gets the entries and each set in an order of
+    the harness' choosing (its result must not depend on it: Theorems/C08 shortestPublicReexport_perm)"""
+    r = random.Random(hash(label) & 0xFFFFFFF if False else sum(map(ord, label)))
+    rm = [{"key": kv["key"], "modules": r.sample(kv["modules"], len(kv["modules"]))} for kv in j["reexport_map"]]
+    r.shuffle(rm)
+    return {**j, "reexport_map": rm}
+
+
 def build(impl, seed):
     g = apigen.ApiGen(impl, random.Random(seed), keyword_rate=random.Random(seed + 1).choice([0.0, 0.1, 0.3]))
     return g.api(), g.features
@@ -93,7 +102,7 @@ def run(ctx) -> None:
     CH = 40
     for i in range(0, len(todo), CH):
         chunk = todo[i:i + CH]
-        outs = driver_batch([{"op": "gen", "api": j, "safe": safe} for _, safe, j, _, _ in chunk])
+        outs = driver_batch([{"op": "gen", "api": shuffled_sets(j, label), "safe": safe} for label, safe, j, _, _ in chunk])
         second = [(k, c) for k, c in enumerate(chunk) if c[4] is not None and c[4][0] == "ok" and c[3][0] == "ok"]
         outs2 = driver_batch([{"op": "gen", "api": c[2], "safe": c[1], "preexisting": sorted(c[3][3])} for _, c in second])
         for (k, c), m2 in zip(second, outs2):
